@@ -25,7 +25,7 @@ VARIABLES sc, st
 vars == <<sc, st>>
 
 MethodTable == << <<"G","E","T">>, <<"P","O","S","T">>, <<"D","E","L","E","T","E">>, <<"P","U","T">>,
-                  <<"P","A","T","C","H">>, <<"H","E","A","D">>, <<"O","P","T","I","O","N","S">>, <<"p","o","s","t">> >>
+                  <<"P","A","T","C","H">>, <<"H","E","A","D">>, <<"O","P","T","I","O","N","S">>, <<"g","e","t">> >>
 DataSyms == <<"a","b","c","d","e","f","g","h","i","j","k","l","m","n","o","p">>
 Data(kind, n) == [i \in 1..n |-> IF kind \in TextKinds /\ i % 2 = 1 THEN NA ELSE DataSyms[i]]
 
